@@ -23,6 +23,17 @@ SPEC = {
         'AITB.Trie.size_spec',
         'AITB.Trie.getAllIds_code_partial',
         'AITB.Trie.trie_refines_spec',
+        'AITB.Trie.erasePF_code_partial',
+        'AITB.Trie.erasePF_code_counterexample',
+        'AITB.Trie.size_code_counterexample',
+        'AITB.Trie.size_as_extracted',
+        'AITB.Trie.getAllIds_as_extracted',
+        'AITB.Trie.erasePF_as_extracted',
+        'AITB.Trie.FMInv_emplace',
+        'AITB.Trie.filtermap_filter_spec',
+        'AITB.Trie.assign_step',
+        'AITB.Trie.permute_subset',
+        'AITB.Trie.reconstruct_compatible',
     ],
     'harness': 'harness/c20.cpp',
     'level': 'proof',
